@@ -595,6 +595,33 @@ def r42(chk, m, rule_id='R4.2'):
             chk.verdict(R, '%s :: stores into a category table' % fn.fullname, not problems,
                         '%s %s' % (fn.fullname, '; '.join(problems)), chk.where(fn, stores[0][0]))
             continue
+        params = {a.arg for a in fn.node.args.posonlyargs + fn.node.args.args + fn.node.args.kwonlyargs} - {'self', 'cls'}
+
+        def root_name(e):
+            while isinstance(e, (ast.Subscript, ast.Attribute)):
+                e = e.value
+            return e.id if isinstance(e, ast.Name) else None
+        # locals that only ever alias a parameter (c = categories) stand for it
+        for _ in range(3):
+            for x in M.walk_no_nested(fn.node):
+                if isinstance(x, ast.Assign) and len(x.targets) == 1 and isinstance(x.targets[0], ast.Name) and isinstance(x.value, ast.Name) \
+                   and x.value.id in params:
+                    others = [y for y in M.walk_no_nested(fn.node) if isinstance(y, ast.Name) and isinstance(y.ctx, ast.Store) and y.id == x.targets[0].id]
+                    if len(others) == 1:
+                        params.add(x.targets[0].id)
+        if all(root_name(t) in params for n_, t in stores):
+            # the table is handed in: whether it is a private copy is the caller's business
+            callers = [(f2, c) for f2 in E.all_functions(m) if 'simpletal' not in f2.fullname for c, cal in resolved_calls(m, f2) if cal is fn]
+            foreign = sorted({f2.fullname for f2, c in callers if not (f2.cls is Context and f2.name in CASES)})
+            if not foreign:
+                chk.ok(R, '%s :: stores into a category table' % fn.fullname,
+                       'edits the table it is given; called only from %s, which are interpreted on the heap above'
+                       % (sorted({f2.fullname for f2, c in callers}) or 'nowhere'))
+            else:
+                chk.undecided(R, '%s :: stores into a category table' % fn.fullname,
+                              '%s edits a category table handed in by %s: whether that table is a private copy there is not decided by this rule'
+                              % (fn.fullname, foreign), chk.where(fn, stores[0][0]))
+            continue
         store_nodes = {id(n) for n, t in stores}
 
         def transfer(n, v, fn=fn):
